@@ -58,7 +58,20 @@ impl Distribution for Gamma {
     /// Uses the algorithm from Marsaglia and Tsang 2000. Applies the squeeze
     /// method and has nearly constant average time for `alpha >= 1`.
     fn sample(&self) -> f64 {
-        let d = self.alpha - 1. / 3.;
+        // Marsaglia-Tsang requires shape >= 1. For smaller shapes draw from Gamma(alpha + 1)
+        // and scale by U^(1/alpha), U uniform on (0, 1) (Marsaglia and Tsang 2000, section 6).
+        let (alpha, boost) = if self.alpha < 1. {
+            let u = loop {
+                let u = self.uniform_gen.sample();
+                if u > 0. {
+                    break u;
+                }
+            };
+            (self.alpha + 1., u.powf(1. / self.alpha))
+        } else {
+            (self.alpha, 1.)
+        };
+        let d = alpha - 1. / 3.;
         loop {
             let (x, v) = loop {
                 let x = self.normal_gen.sample();
@@ -69,10 +82,10 @@ impl Distribution for Gamma {
             };
             let u = self.uniform_gen.sample();
             if u < 1. - 0.0331 * x.powi(4) {
-                return d * v / self.beta;
+                return boost * d * v / self.beta;
             }
             if u.ln() < 0.5 * x.powi(2) + d * (1. - v + v.ln()) {
-                return d * v / self.beta;
+                return boost * d * v / self.beta;
             }
         }
     }
